@@ -62,7 +62,8 @@ pub struct ReplayFile {
     pub tier: Tier,
     pub original_seed: u64,
     pub minimisation: String,
-    pub doc: Doc,
+    /// None: the document could not be regenerated outside the dying worker; replay by seed
+    pub doc: Option<Doc>,
     pub trace: Vec<String>,
     pub log_hash: u64,
     pub sched_hash: u64,
@@ -86,6 +87,15 @@ pub fn run_check(prop: &str, tier: Tier, seed: u64, runs: Option<u64>, workers: 
         return 2;
     }
     let start = Instant::now();
+    // replay files of earlier runs of this property are stale by definition
+    if let Ok(rd) = std::fs::read_dir(root().join("replays")) {
+        for e in rd.flatten() {
+            let n = e.file_name().to_string_lossy().to_string();
+            if n.starts_with(&format!("{}-", prop)) && n.ends_with(".json") {
+                let _ = std::fs::remove_file(e.path());
+            }
+        }
+    }
     let runs = runs.unwrap_or_else(|| runs_for(prop, tier));
     let directed = props::directed(prop);
     let spec = BatchSpec {
@@ -163,7 +173,26 @@ pub fn run_check(prop: &str, tier: Tier, seed: u64, runs: Option<u64>, workers: 
                 .and_then(|(_, _, d)| serde_json::from_str::<Doc>(d.as_ref().unwrap()).ok())
                 .or_else(|| doc_for(&mut w, prop, *s, &directed));
             let Some(doc) = doc else {
-                println!("sim: cannot regenerate a document for seed {}; reporting unminimised", s);
+                // the scenario kills the worker even while being generated: report it by seed
+                let path = replay_dir.join(format!("{}-{}-{}.json", prop, s, sig_hash(sig)));
+                let rf = ReplayFile {
+                    property: prop.to_string(),
+                    signature: sig.clone(),
+                    message: msg.clone(),
+                    tier,
+                    original_seed: *s,
+                    minimisation: "not minimised: the scenario document could not be regenerated".into(),
+                    doc: None,
+                    trace: vec![],
+                    log_hash: 0,
+                    sched_hash: 0,
+                };
+                std::fs::write(&path, serde_json::to_string_pretty(&rf).unwrap()).expect("HARNESS: write replay");
+                println!("sim: violation signature: {}", sig);
+                println!("sim:   {} [{} of {} runs, first seed {}]", msg, n, agg.evaluations, s);
+                let line = format!("VIOLATION property={} replay={}", prop, path.display());
+                println!("{}", line);
+                violation_lines.push(line);
                 continue;
             };
             let (min_doc, note) = if k < 6 {
@@ -197,7 +226,7 @@ pub fn run_check(prop: &str, tier: Tier, seed: u64, runs: Option<u64>, workers: 
                 tier,
                 original_seed: *s,
                 minimisation: note,
-                doc: min_doc,
+                doc: Some(min_doc),
                 trace: rr.trace.clone(),
                 log_hash: rr.log_hash,
                 sched_hash: rr.sched_hash,
@@ -367,7 +396,10 @@ pub fn replay(path: &str) -> i32 {
         }
     };
     let mut w = Worker::spawn(&rf.property, rf.tier);
-    let r = w.run_doc(&rf.doc, true);
+    let r = match &rf.doc {
+        Some(d) => w.run_doc(d, true),
+        None => w.request(&format!("TG {}", rf.original_seed), rf.original_seed),
+    };
     for l in &r.trace {
         println!("  {}", l);
     }
